@@ -7,14 +7,21 @@ TOKSTUBS = [P + x for x in ('10oasis_putcEiRNS_11OasisStreamE', '11oasis_writeEP
     '17oasis_read_stringERNS_11OasisStreamEbRm', '15oasis_read_realERNS_11OasisStreamE', '23oasis_read_real_by_typeERNS_11OasisStreamENS_13OasisDataTypeE', '16oasis_write_realERNS_11OasisStreamEd')]
 RO = P + '8read_oasEPKcddPNS_9ErrorCodeE'
 OBLIGATIONS = [
-    Ob('reader_records', 'C04/rd_oas.c', [RO], ir='ni', stubs=TOKSTUBS, defines={'RC': 0, 'REFL': 0}, real=False,
+    Ob('reader_records', 'C04/rd_oas.c', [RO], ir='ni', stubs=TOKSTUBS, defines={'RC': 0, 'REFL': 0}, wrap_files=True,
        what='read_oas on spec-encoded records (token stream): RECTANGLE explicit and square, modal-variable reuse (layer, datatype, width, height, position) under XYRELATIVE: loads to exactly the encoded layout, every token consumed with the specified kind',
        bound='one or two records per cell; 32-bit layer/datatype, coordinates and sizes within 2^20; grid = 1 (real 1.0); integer/delta/real/string codecs as typed tokens (C19 proves the codecs)',
        variants=[{'ELEM': e} for e in (0, 1)], unwind=20, timeout=400, mem_gb=12, nvec=5),
-    Ob('reader_records_more', 'C04/rd_oas.c', [RO], ir='ni', stubs=TOKSTUBS, defines={'RC': 0, 'REFL': 0}, real=False,
+    Ob('reader_records_more', 'C04/rd_oas.c', [RO], ir='ni', stubs=TOKSTUBS, defines={'RC': 0, 'REFL': 0}, wrap_files=True,
        what='read_oas on spec-encoded records (token stream): POLYGON with a general point list, PLACEMENT by name with each rotation code and the reflection bit, TEXT with inline string',
        bound='one record per cell; values within 2^20 (polygon: 2^10)',
        variants=[{'ELEM': 4}] + [{'ELEM': 3, 'RC': r, 'REFL': f} for r in range(4) for f in (0, 1)] + [{'ELEM': 5, 'REC': r, 'VERT': v, 'LIM': 64} for r in (23, 24, 25) for v in (0, 1)] + [{'ELEM': 6, 'CT': t, 'LIM': 64} for t in range(26)], unwind=20, timeout=400, mem_gb=12, nvec=5),
+    Ob('reader_properties', 'C04/rd_oas.c', [RO], ir='ni', stubs=TOKSTUBS, defines={'RC': 0, 'REFL': 0, 'ELEM': 7}, wrap_files=True,
+       what='read_oas on a RECTANGLE followed by two PROPERTY records: inline name, explicit value list [unsigned integer, PROPSTRING reference], then re-use of name and value list from the modal variables (PROPERTY with V=1 / LAST_PROPERTY), the PROPSTRING defined afterwards: both properties carry the name and [the integer - still an integer -, the referenced string], in order',
+       bound='one element, two properties, two values; the integer value arbitrary (64 bit); reference types 13 / 14 / 15',
+       variants=[{'PREC': 28, 'STRREF': 0}, {'PREC': 29, 'STRREF': 1}], unwind=20, timeout=900, mem_gb=14, mem_est_gb=10, nvec=5),
+    Ob('reader_properties_all', 'C04/rd_oas.c', [RO], ir='ni', stubs=TOKSTUBS, defines={'RC': 0, 'REFL': 0, 'ELEM': 7}, wrap_files=True,
+       what='as reader_properties, all six combinations of the re-use record and the reference type', bound='as reader_properties',
+       variants=[{'PREC': r, 'STRREF': k} for r in (28, 29) for k in (0, 1, 2)], unwind=20, timeout=1200, mem_gb=14, mem_est_gb=10, nvec=5, tier='thorough'),
 ]
 BOUNDS = 'one cell, one or two RECTANGLE records; all field values symbolic within 2^20 (layer/datatype full 32 bits)'
 OUTSIDE = 'every other record kind: POLYGON with a symbolic point list (no verdict in 400 s), PLACEMENT and TEXT (memory blow-up > 11 GB in the END-of-file name resolution), PATH, TRAPEZOID, CTRAPEZOID, CIRCLE, PROPERTY, CBLOCK, name tables; the whole writer direction; harness variants ELEM 2..4 are kept in harness/C04/rd_oas.c for future engines but are not run'
